@@ -49,6 +49,12 @@ partial def loop (h : IO.FS.Stream) (p : Pool) (n bad : Nat) : IO Nat := do
         IO.println s!"MISMATCH line {n}: {l}\n   model: {expect}"
         loop h p0 (n + 1) (bad + 1)
       else loop h p0 (n + 1) bad
+    | ["longwait"] =>
+      -- the model has no clock: a queued request with an empty pool stays queued however long it waits
+      if parts[1]! ≠ "through=false" then
+        IO.println s!"MISMATCH line {n}: {l}\n   model: through=false (waiting never produces a token)"
+        loop h p (n + 1) (bad + 1)
+      else loop h p (n + 1) bad
     | _ => IO.println s!"MISMATCH line {n}: bad-op {l}"; loop h p (n + 1) (bad + 1)
 
 def main : IO Unit := do
